@@ -96,6 +96,8 @@ type Scheduler struct {
 	maxSteps  int
 	lastKey   string
 	aborter   *Thread
+	forceStep int     // at this scheduling point ...
+	forceThr  *Thread // ... this thread is chosen if it is enabled (fault injection at a step boundary)
 }
 
 // S is the scheduler of the execution in progress (nil outside Run).
@@ -376,6 +378,27 @@ func (s *Scheduler) next(n int, curEnabled bool, kind byte) int {
 	return c
 }
 
+// Steps returns the number of scheduling points passed so far in this execution.
+func Steps() int { return S.x.Steps }
+
+// ForceAt makes the scheduler hand control to the calling thread's child t as soon as the
+// execution has passed n scheduling points and t is enabled, without recording a decision: the
+// position of an injected fault is a parameter of the harness, not a bounded choice.
+func ForceAt(n int, t *Thread) {
+	S.forceStep, S.forceThr = n, t
+}
+
+// GoForced spawns a thread that is scheduled exactly at scheduling point n.
+func GoForced(name string, n int, f func()) {
+	s := S
+	reached := func() bool { return s.x.Steps >= n }
+	GoNamed(name, func() {
+		Op("fault-point", 0, reached)
+		f()
+	})
+	ForceAt(n, s.threads[len(s.threads)-1])
+}
+
 // Now returns the virtual time in nanoseconds since the start of the execution.
 func Now() int64 {
 	if S == nil {
@@ -494,7 +517,16 @@ func (s *Scheduler) schedule(t *Thread, exiting bool) {
 			panic(abortT{})
 		}
 		c := 0
-		if nopt > 1 {
+		forced := false
+		if s.forceThr != nil && s.x.Steps >= s.forceStep {
+			for i, th := range enabled {
+				if th == s.forceThr {
+					c, forced = i, true
+					s.forceThr = nil
+				}
+			}
+		}
+		if nopt > 1 && !forced {
 			c = s.next(nopt, curEnabled, 't')
 		}
 		if c >= len(enabled) {
